@@ -61,6 +61,15 @@ pub fn module(log: Log) -> RpcModule<()> {
 		p.parse::<Box<RawValue>>()
 	})
 	.unwrap();
+	// a result that serde_json refuses (a map whose keys are no strings): the library answers Internal error
+	let l = log.clone();
+	m.register_method("badser", move |p, _, _| {
+		l.lock().unwrap().push(("badser".into(), ptxt(&p)));
+		let mut r = std::collections::BTreeMap::new();
+		r.insert((1u8, 2u8), 3u8);
+		Some(r)
+	})
+	.unwrap();
 	let l = log.clone();
 	m.register_async_method("a_echo", move |p, _, _| {
 		let l = l.clone();
